@@ -14,6 +14,8 @@ mod streaming;
 mod telemetry;
 
 pub use cache::{CacheConfig, TieredCache};
+#[cfg(feature = "verif-hooks")]
+pub use dedup::dedup_batches as verif_dedup_batches;
 pub use cached_store::CachedObjectStore;
 pub use engine::QueryEngine;
 pub use router::QueryRouter;
